@@ -70,12 +70,38 @@ def checkFillRoot (e : SpecDict) : Option SpecDict := do
   let e ← fillIntField e "pbits"
   if e.length = 2 then some e else none
 
-/-- `_checkFillSpec`: a missing `"root"` / rank key is first set to `{}` -/
+/-- `for rank in ranks:` of `_checkFillSpec`; a missing rank key is first set to `{}` -/
+def checkFillRanks : List (Option SpecDict) → Option (List SpecDict)
+  | [] => some []
+  | e :: r => do
+    let x ← checkFillRank (e.getD [])
+    let xs ← checkFillRanks r
+    pure (x :: xs)
+
+/-- `_checkFillSpec`: a missing `"root"` key is first set to `{}` -/
 def checkFillSpec (root : Option SpecDict) (ranks : List (Option SpecDict)) :
     Option (SpecDict × List SpecDict) := do
   let r ← checkFillRoot (root.getD [])
-  let rs ← ranks.mapM (fun e => checkFillRank (e.getD []))
+  let rs ← checkFillRanks ranks
   pure (r, rs)
+
+/-- the documented defaults of a rank entry: zero bits, compressed, contiguous -/
+def specRankDefault (k : String) : Option SpecVal :=
+  if k = "rhbits" ∨ k = "fhbits" ∨ k = "cbits" ∨ k = "pbits" then some (SpecVal.int 0)
+  else if k = "format" then some (SpecVal.str "C")
+  else if k = "layout" then some (SpecVal.str "contiguous")
+  else none
+
+/-- the defaults of the `"root"` entry -/
+def specRootDefault (k : String) : Option SpecVal :=
+  if k = "hbits" ∨ k = "pbits" then some (SpecVal.int 0) else none
+
+/-- executable check that `filled` is `given` completed with the defaults `dflt` on `keys` -/
+def specFilledB (dflt : String → Option SpecVal) (keys : List String) (given filled : SpecDict) : Bool :=
+  keys.all (fun k => lookup filled k == (match lookup given k with | some v => some v | none => dflt k))
+
+def specRankKeys : List String := ["rhbits", "fhbits", "cbits", "pbits", "format", "layout"]
+def specRootKeys : List String := ["hbits", "pbits"]
 
 def SpecDict.nat (e : SpecDict) (k : String) : Nat :=
   match lookup e k with
@@ -263,6 +289,15 @@ def FpReachable [DecidableEq ν] (dflt : ν) (lv : Nat → FpLevel) :
               FpReachable dflt lv d (fpChildAt d f c) p' h o
       | .C => ∃ g, (c, g) ∈ (show List (Int × Tree Int ν (d + 1)) from f) ∧
               isEmpty dflt (d + 1) g = false ∧ FpReachable dflt lv d g p' h o
+
+/-- Declarative description of the raw walk: the stored fiber at coordinate path `p` below `f`
+    has `len = o` (every stored element counts, empty or not). -/
+def FpStored : (d : Nat) → Tree Int ν (d + 1) → List Int → Nat → Prop
+  | 0, f, p, o => p = [] ∧ o = fpOcc 0 f
+  | d + 1, f, p, o =>
+    match p with
+    | [] => o = fpOcc (d + 1) f
+    | c :: p' => ∃ g, (c, g) ∈ (show List (Int × Tree Int ν (d + 1)) from f) ∧ FpStored d g p' o
 
 /-- sub-tree footprint recomputed from the enumeration of reachable fibers -/
 def fpSubTreeSpec [DecidableEq ν] (dflt : ν) (lv : Nat → FpLevel) (d : Nat) (f : Tree Int ν (d + 1)) : Nat :=
